@@ -15,12 +15,14 @@ import (
 	"github.com/plgd-dev/go-coap/v3/message/codes"
 	"github.com/plgd-dev/go-coap/v3/message/pool"
 	"github.com/plgd-dev/go-coap/v3/net/responsewriter"
+	"github.com/plgd-dev/go-coap/v3/options"
 	tcpclient "github.com/plgd-dev/go-coap/v3/tcp/client"
 	"verifharness/internal/lp"
 	"verifharness/internal/mem"
 )
 
 type caseLines struct {
+	srv    bool // cfgsrv: the connection is the one a tcp.Server creates for an accepted stream, configured through options
 	max    uint32
 	cache  uint16
 	queue  int
@@ -43,20 +45,32 @@ func runCase(t *testing.T, c caseLines) []string {
 		var mu sync.Mutex
 		var ord []string
 		var sig []string
-		cc, peer, err := mem.NewTCPConn(mem.TCPOpts{Mutate: func(cfg *tcpclient.Config) {
-			cfg.MaxMessageSize = c.max
-			cfg.ConnectionCacheSize = c.cache
-			cfg.ReceivedMessageQueueSize = c.queue
-			cfg.BlockwiseEnable = false
-			// every message that is not a signal and matches no pending token ends in cfg.Handler
-			// (tcp/client ignores cfg.ProcessReceivedMessage, so the handler is the observation point)
-			cfg.Handler = func(_ *responsewriter.ResponseWriter[*tcpclient.Conn], req *pool.Message) {
-				body := bodyOf(req)
-				mu.Lock()
-				ord = append(ord, fmt.Sprintf("%d %s %d %s", req.Code(), lp.Hex(req.Token()), len(body), lp.Hex64(fnvBytes(body))))
-				mu.Unlock()
-			}
-		}})
+		handler := func(_ *responsewriter.ResponseWriter[*tcpclient.Conn], req *pool.Message) {
+			body := bodyOf(req)
+			mu.Lock()
+			ord = append(ord, fmt.Sprintf("%d %s %d %s", req.Code(), lp.Hex(req.Token()), len(body), lp.Hex64(fnvBytes(body))))
+			mu.Unlock()
+		}
+		var cc *tcpclient.Conn
+		var peer *mem.TCPPeer
+		var err error
+		stopSrv := func() {}
+		if c.srv {
+			// block-wise transfer stays at the server's default (enabled): the streams of these cases carry no block options
+			cc, peer, stopSrv, err = mem.NewTCPConnViaServer("c07-peer",
+				options.WithMaxMessageSize(c.max), options.WithConnectionCacheSize(c.cache),
+				options.WithReceivedMessageQueueSize(c.queue), options.WithHandlerFunc(handler))
+		} else {
+			cc, peer, err = mem.NewTCPConn(mem.TCPOpts{Mutate: func(cfg *tcpclient.Config) {
+				cfg.MaxMessageSize = c.max
+				cfg.ConnectionCacheSize = c.cache
+				cfg.ReceivedMessageQueueSize = c.queue
+				cfg.BlockwiseEnable = false
+				// every message that is not a signal and matches no pending token ends in cfg.Handler
+				// (tcp/client ignores cfg.ProcessReceivedMessage, so the handler is the observation point)
+				cfg.Handler = handler
+			}})
+		}
 		if err != nil {
 			for i := range out {
 				out[i] = "conn-error"
@@ -106,7 +120,11 @@ func runCase(t *testing.T, c caseLines) []string {
 			out[i] = b.String()
 		}
 		_ = cc.Close()
-		peer.Close()
+		if c.srv {
+			stopSrv()
+		} else {
+			peer.Close()
+		}
 		synctest.Wait()
 	})
 	return out
@@ -152,7 +170,7 @@ func TestC07(t *testing.T) {
 	err := lp.FileLoop(func(f []string, w *bufio.Writer) {
 		wlast = w
 		switch {
-		case len(f) >= 2 && f[0] == "cfg":
+		case len(f) >= 2 && (f[0] == "cfg" || f[0] == "cfgsrv"):
 			flush(w)
 			mx, _ := strconv.ParseUint(f[1], 10, 32)
 			cache, queue := uint64(2048), 16
@@ -162,7 +180,7 @@ func TestC07(t *testing.T) {
 			if len(f) >= 4 {
 				queue, _ = strconv.Atoi(f[3])
 			}
-			cur = &caseLines{max: uint32(mx), cache: uint16(cache), queue: queue}
+			cur = &caseLines{srv: f[0] == "cfgsrv", max: uint32(mx), cache: uint16(cache), queue: queue}
 		case len(f) == 2 && f[0] == "chunk" && cur != nil:
 			b, err := lp.ParseHex(f[1])
 			cur.chunks = append(cur.chunks, b)
